@@ -409,12 +409,19 @@ class Categorize(Factory, Container):
         vals = self.values[0].name if self.size > 0 else self.value.name if self.value is not None else self.contentType
         return f"<Categorize values={vals} size={self.size}"
 
+    def _binsType(self):
+        # what toJson writes as "bins:type": an empty container still says what its bins would hold
+        if len(self.bins) > 0:
+            return next(iter(self.bins.values())).name
+        return self.value.name if self.value is not None else self.contentType
+
     def __eq__(self, other):
         return (
             isinstance(other, Categorize)
             and numeq(self.entries, other.entries)
             and self.quantity == other.quantity
             and self.bins == other.bins
+            and self._binsType() == other._binsType()
         )
 
     def __ne__(self, other):
